@@ -47,7 +47,8 @@ BOUNDS = {
         "B": "9 frames x 8 iterables (one raises when evaluated) x 10 loop uses x 5 exits, enable_loop on; the three other modes on 2 frames; 72 two-deep frame compositions x 1 iterable x 3 uses x 5 exits",
         "B2": "12 use sites x 2 frames x 2 iterables x 3 for-line comments x modes on/page",
         "B3": "work list changed by the loop body: 7 mutations x 3 reads (last / reverse_index / both) x 3 placements (before / after / both) x 3 initial lengths x 3 frames x modes on/page",
-        "B4": "`% for` using loop inside a nested callable (anonymous block, <%call> body, the same two inside a def, def nested in a def) used inside a `% for` of the enclosing callable that mentions loop or not: 5 x 2 x 3 iterables x 8 uses x 3 exits x modes on/page",
+        "B4": "`% for` using loop inside a nested callable (anonymous block, <%call> body, the same two inside a def, def nested in a def, def inside a <%namespace> tag) used inside a `% for` of the enclosing callable that mentions loop or not: 6 x 2 x 3 iterables x 8 uses x 3 exits x modes on/page",
+        "B5": "loop attributes read on some iterations only: 12 reads x 11 gates (item-gated, after continue, conditional expression, twice, inner loop that is sometimes empty) x 2 iterables x 3 frames x modes on/page",
         "C": "skeletons with <=3 '%' lines: all 4^n indentations (LF/CRLF and '% kw' / '%kw' / '%  kw' rotating); 4..6 lines: 16-row cover x LF/CRLF",
         "D": "block shapes x 4 margins x 5 positions x LF/CRLF",
         "E": "except forms x raised x handler count",
@@ -57,7 +58,8 @@ BOUNDS = {
         "B": "9 frames x 8 iterables (one raises when evaluated) x 10 loop uses x 5 exits x 4 enable_loop modes; 72 two-deep frame compositions x 8 x 10 x 5, enable_loop on",
         "B2": "12 use sites x 9 frames x 7 iterables x 3 for-line comments x 4 modes",
         "B3": "work list changed by the loop body: 7 mutations x 3 reads x 3 placements x 3 initial lengths x 8 frames x 4 modes",
-        "B4": "5 nested-callable kinds x 2 x 7 iterables x 8 uses x 3 exits x 4 modes",
+        "B4": "6 nested-callable kinds x 2 x 7 iterables x 8 uses x 3 exits x 4 modes",
+        "B5": "12 reads x 11 gates x 2 iterables x 8 frames x 4 modes",
         "C": "skeletons with <=4 '%' lines: all 4^n indentations x LF/CRLF ('% kw' / '%kw' / '%  kw' rotating); 5..8 lines: 16-row cover x LF/CRLF",
         "D": "block shapes x 4 margins x 5 positions x LF/CRLF",
         "E": "except forms x raised x handler count",
@@ -717,7 +719,7 @@ def family_B2(tier, dat):
 # --------------------------------------------------------------------------
 # family B4: a `% for` that uses `loop`, written inside a nested callable
 
-NESTS = ["block", "call-body", "block-in-def", "call-body-in-def", "nested-def"]
+NESTS = ["block", "call-body", "block-in-def", "call-body-in-def", "nested-def", "namespace-def"]
 B4_USES = ["none", "index", "first", "last", "evenodd", "rev", "cycle", "parent"]
 B4_EXITS = ["exhaust", "break", "return"]
 
@@ -740,7 +742,7 @@ def family_B4(tier, dat):
         for outer_uses in (True, False):
             for itr in its:
                 for use in B4_USES:
-                    if use == "parent" and nest == "nested-def":
+                    if use == "parent" and nest in ("nested-def", "namespace-def"):
                         continue
                     if use == "parent" and not outer_uses:
                         # the inner loop's parent is then the only mention of the enclosing loop: kept, it is
@@ -763,6 +765,9 @@ def family_B4(tier, dat):
                         elif nest == "call-body-in-def":
                             defs = (wrap, ("od", "", (("For", "o", outer_it, (head, ("CallBody", "wrap()", inner), tail), None, None),)))
                             body = (L(("e", "od()")),)
+                        elif nest == "namespace-def":
+                            # a def written inside a <%namespace name=...> tag of the body, called inside a `% for` of the body
+                            body = (("NsDef", "nsx", "nf", "", inner), ("For", "o", outer_it, (head, L(("e", "nsx.nf()")), tail), None, None))
                         else:
                             defs = (
                                 (
@@ -857,6 +862,64 @@ def family_B3(tier, dat):
                         for mode in modes:
                             yield ("B3-mutating", prog, mode, [spelling(k % 16)])
                             k += 1
+
+
+# --------------------------------------------------------------------------
+# family B5: loop attributes read on SOME iterations only (a read gated by the item, placed after a continue, in one
+# arm of a conditional expression, several times in one iteration, from an inner loop that is sometimes empty)
+
+B5_READS = [
+    "loop.index", "loop.first", "loop.last", "loop.even", "loop.odd", "loop.reverse_index",
+    "loop.cycle('p', 'q')", "loop.cycle('p', 'q', 'r')", "loop.cycle('p')",
+    "loop.parent.index", "loop.parent.cycle('u', 'v')", "loop.parent.last",
+]
+B5_GATES = ["always", "not-first", "only-last", "not-second", "second-and-fourth", "after-continue", "conditional-expression", "twice", "twice-gated", "in-inner-loop", "else-arm"]
+
+
+def family_B5(tier, dat):
+    a, b, c = dat["items"]
+    d = a + b + c + 100
+    L = lambda *p: ("L", tuple(p))  # noqa
+    its = [("four", "[%d, %d, %d, %d]" % (a, b, c, d)), ("gen", "(z for z in [%d, %d, %d, %d])" % (a, b, c, d))]
+    if tier == "quick":
+        frames, modes = ["top", "for", "def"], ["on", "page"]
+    else:
+        frames, modes = [f for f in FRAMES if f != "outer"], MODES
+    k = 0
+    for fr in frames:
+        for iname, itr in its:
+            for rd in B5_READS:
+                for gate in B5_GATES:
+                    read = L(("e", "i"), ("t", "="), ("e", rd))
+                    if gate == "always":
+                        body = (read,)
+                    elif gate == "not-first":
+                        body = (("If", (("i != %d" % a, (read,)),), None),)
+                    elif gate == "only-last":
+                        body = (("If", (("i == %d" % d, (read,)),), None),)
+                    elif gate == "not-second":
+                        body = (("If", (("i != %d" % b, (read,)),), None),)
+                    elif gate == "second-and-fourth":
+                        body = (("If", (("i in (%d, %d)" % (b, d), (read,)),), None),)
+                    elif gate == "after-continue":
+                        body = (("If", (("i == %d" % b, (("Py", ("continue",), "inline"),)),), None), read)
+                    elif gate == "conditional-expression":
+                        body = (L(("e", "i"), ("t", "="), ("e", "(%s) if i != %d else '-'" % (rd, b))),)
+                    elif gate == "twice":
+                        body = (read, L(("t", "again="), ("e", rd)))
+                    elif gate == "twice-gated":
+                        body = (("If", (("i != %d" % a, (read, L(("t", "again="), ("e", rd)))),), None),)
+                    elif gate == "in-inner-loop":
+                        inner_rd = rd.replace("loop.", "loop.parent.", 1)
+                        body = (("For", "j", "range(0 if i == %d else 2)" % b, (L(("e", "j"), ("t", ":"), ("e", inner_rd)),), None, None),)
+                    else:
+                        body = (("If", (("i == %d" % a, (L(("t", "skip")),)),), (read,)),)
+                    S = (("For", "i", itr, body, None, None),)
+                    dd, bdy = frame(fr, S, dat)
+                    prog = {"defs": dd, "body": bdy, "page": None}
+                    for mode in modes:
+                        yield ("B5-sparse-reads", prog, mode, [spelling(k % 16)])
+                        k += 1
 
 
 # --------------------------------------------------------------------------
@@ -1052,7 +1115,7 @@ def family_E(tier, dat):
                         k += 1
 
 
-FAMILIES = [family_A, family_B, family_B2, family_B3, family_B4, family_C, family_D, family_E]
+FAMILIES = [family_A, family_B, family_B2, family_B3, family_B4, family_B5, family_C, family_D, family_E]
 
 
 def all_cases(tier, seed):
